@@ -40,7 +40,7 @@ def mk_factory(sc):
     def mk(d, kind):
         consts = ["Prog <- ScProg", 'Variant = "%s"' % sc["variant"], "Retry = %s" % ("TRUE" if sc["retry"] else "FALSE"),
                   "MaxG = %d" % sc.get("maxg", 4), "MaxTicks = %d" % sc.get("ticks", 0),
-                  "FixF2 = %s" % ("TRUE" if FIX_F2 else "FALSE"), "Eager = TRUE"]
+                  "FixF2 = %s" % ("TRUE" if FIX_F2 else "FALSE"), "FixF14 = TRUE", "Eager = TRUE"]
         cfg = ["INIT Init", "NEXT Next", "CHECK_DEADLOCK FALSE", "CONSTRAINT Bounded", "CONSTANTS"] + [" " + c for c in consts]
         if kind == "mc":
             cfg += ["INVARIANTS ModelSafe QuietInv ChInv OneCurrentCtx ActiveAgree"]
